@@ -118,6 +118,50 @@ func (c *Ctx) cmpConst(t *Term, op int, k float64) *Term {
 		}
 		return v < k
 	}
+	return c.threshold(m, pred)
+}
+
+// cmpToIntConst rewrites "int64(t) op K" (signed compare, op as in cmpConst)
+// where t is a monotone chain over an integer leaf whose value stays within
+// the int64 range for every leaf value (so the truncating conversion is
+// monotone non-decreasing and defined). Returns nil otherwise.
+func (c *Ctx) cmpToIntConst(t *Term, op int, K int64) *Term {
+	m, ok := decompose(t)
+	if !ok || m.intSrc == 0 {
+		return nil
+	}
+	w := m.leaf.Sort.W
+	var flo, fhi float64
+	if m.intSrc == 1 {
+		flo, fhi = -math.Ldexp(1, w-1), math.Ldexp(1, w-1)-1
+		if w == 64 {
+			flo, fhi = float64(math.MinInt64), float64(math.MaxInt64)
+		}
+	} else {
+		flo, fhi = 0, float64(mask(w))
+	}
+	lim := math.Ldexp(1, 63)
+	for _, e := range []float64{m.eval(flo), m.eval(fhi)} {
+		if e != e || e >= lim || e <= -lim {
+			return nil
+		}
+	}
+	pred := func(y float64) bool {
+		v := int64(m.eval(y))
+		switch op {
+		case 0:
+			return v >= K
+		case 1:
+			return v > K
+		case 2:
+			return v <= K
+		}
+		return v < K
+	}
+	return c.threshold(m, pred)
+}
+
+func (c *Ctx) threshold(m *monoChain, pred func(float64) bool) *Term {
 	switch m.intSrc {
 	case 0:
 		lo, hi := fkey(math.Inf(-1)), fkey(math.Inf(1))
@@ -212,4 +256,97 @@ func (c *Ctx) cmpConst(t *Term, op int, k float64) *Term {
 		return c.ULe(m.leaf, c.BVC(w, lo))
 	}
 	return nil
+}
+
+// URange is a structural upper/lower bound of a bit-vector term read as an
+// unsigned number (sound, not tight).
+func URange(t *Term) (lo, hi uint64) {
+	w := t.Sort.W
+	full := mask(w)
+	switch t.Op {
+	case OpConst:
+		return t.C, t.C
+	case OpZExt:
+		return URange(t.Args[0])
+	case OpExtract:
+		if t.P1 == 0 {
+			_, h0 := URange(t.Args[0])
+			if h0 <= full {
+				return 0, h0
+			}
+		}
+	case OpBAnd:
+		_, h0 := URange(t.Args[0])
+		_, h1 := URange(t.Args[1])
+		if h1 < h0 {
+			h0 = h1
+		}
+		return 0, h0
+	case OpAdd:
+		l0, h0 := URange(t.Args[0])
+		l1, h1 := URange(t.Args[1])
+		if h0+h1 >= h0 && h0+h1 <= full {
+			return l0 + l1, h0 + h1
+		}
+	case OpIte:
+		l0, h0 := URange(t.Args[1])
+		l1, h1 := URange(t.Args[2])
+		if l1 < l0 {
+			l0 = l1
+		}
+		if h1 > h0 {
+			h0 = h1
+		}
+		return l0, h0
+	case OpLShr:
+		if t.Args[1].Op == OpConst && t.Args[1].C < uint64(w) {
+			_, h0 := URange(t.Args[0])
+			return 0, h0 >> t.Args[1].C
+		}
+	case OpURem:
+		if t.Args[1].Op == OpConst && t.Args[1].C > 0 {
+			return 0, t.Args[1].C - 1
+		}
+	}
+	return 0, full
+}
+
+// smallFToS rewrites int64(chain(leaf)) into integer arithmetic on the leaf
+// when the leaf's structural range is so small that the conversion takes at
+// most 17 distinct values: min + sum over k of [int64(chain) >= k], each
+// indicator being an exact threshold comparison on the leaf.
+func (c *Ctx) smallFToS(a *Term) *Term {
+	m, ok := decompose(a)
+	if !ok || m.intSrc == 0 {
+		return nil
+	}
+	lo, hi := URange(m.leaf)
+	w := m.leaf.Sort.W
+	if m.intSrc == 1 && hi >= uint64(1)<<uint(w-1) {
+		return nil
+	}
+	if hi-lo > 1<<32 {
+		return nil
+	}
+	e0, e1 := m.eval(float64(lo)), m.eval(float64(hi))
+	lim := math.Ldexp(1, 62)
+	if e0 != e0 || e1 != e1 || math.Abs(e0) >= lim || math.Abs(e1) >= lim {
+		return nil
+	}
+	i0, i1 := int64(e0), int64(e1)
+	if i0 > i1 {
+		i0, i1 = i1, i0
+	}
+	if i1-i0 > 16 {
+		return nil
+	}
+	r := c.BVC(64, uint64(i0))
+	for k := i0 + 1; k <= i1; k++ {
+		b := c.cmpToIntConst(a, 0, k)
+		if b == nil {
+			return nil
+		}
+		r = c.Add(r, c.Ite(b, c.BVC(64, 1), c.BVC(64, 0)))
+	}
+	return r
 }
